@@ -74,6 +74,26 @@ PROPS = {
         assumptions=ASSUME_WB + ["ids with zero-padded digit runs (natural order not total) are only checked for content preservation, not for order"],
         stages=[dict(name="clean_rewrite", run="^TestC10_", quick=500, thorough=5000, shards_quick=4, shards_thorough=16)],
     ),
+    "C20": dict(
+        rule="sequential: histories as C03 (every process executes a test at most once) with all outcome classes (passed, added, updated, failed by mismatch / invalid input / failing matcher / missing on CI / "
+             "directory that cannot be created), snaps.Skip* calls, Clean at the end of every process in any mode x sort with stale entries and unaddressed files; oracle: per call exactly one outcome signal "
+             "equal to the model's class, summary totals == harness tallies, obsolete lists == model's stale set == what Clean removed. concurrent: 2-8 goroutines (distinct names, one shared file) with predicted "
+             "classes, then the same summary oracle. non-trivial = >= 2 failure/skip kinds or >= 2 processes (sequential), >= 3 outcome kinds (concurrent); distinct = distinct canonical JSON",
+        assumptions=ASSUME_WB + ["MatchSnapshot without values (documented warning) is excluded", "the summary grammar parsed is the NO_COLOR one"],
+        stages=[dict(name="summary", run="^TestC20_", quick=500, thorough=5000, shards_quick=4, shards_thorough=16)],
+    ),
+    "C12": dict(
+        rule="differential: a sequence of 1-8 calls (five APIs) through shared Configs A, B (B built from the SAME option values as A plus overrides) and configs built late, "
+             "versus the same sequence with a brand-new Config (fresh option values) per call; outcomes and the resulting directory trees must be identical. "
+             "race stage: 2-4 goroutines x 1-5 calls through ONE shared Config under the race detector. "
+             "non-trivial = MatchStandaloneJSON followed by another API on a Config without Ext, or >= 3 APIs, or a JSON option overridden in B (differential); >= 2 APIs (race); distinct = distinct canonical JSON",
+        assumptions=ASSUME_WB + ["package-level Match* functions are exercised by the black-box engine only (they derive the directory from the source location)",
+                                 "a race report is always a real race; absence is limited to the executed accesses"],
+        stages=[
+            dict(name="differential", run="^TestC12_", quick=800, thorough=10000, shards_quick=4, shards_thorough=16),
+            dict(name="race", engine="race", run="^TestC12Race_", quick=100, thorough=1500, shards_quick=2, shards_thorough=8, expect_race_free=True),
+        ],
+    ),
     "C13": dict(
         rule="cases are ordered pairs of texts (+ colour flag): exhaustive over line sequences of a 3-letter alphabet, "
              "random pairs from the hostile line alphabet related by 1-3 edits, and large texts (>10 / >=200 lines with popular lines). "
